@@ -272,7 +272,7 @@ func TestC06(t *testing.T) {
 	}
 	t.Run("error_positions", func(t *testing.T) {
 		b := ev.enum(t)
-		cs := errorPositionCases()
+		cs := append(errorPositionCases(), pgCorpusCases()...)
 		for i, c := range cs {
 			if !mine(i) {
 				continue
